@@ -18,10 +18,67 @@ def _is_dc_replace(c: ast.Call, aliases: dict[str, str]) -> bool:
     return n in ("dataclasses.replace",) or (n == "replace" and aliases.get("replace", "replace") == "replace")
 
 
+def _node_keyed_mapping(fn: ast.FunctionDef) -> str | None:
+    """A local mapping from original nodes to their copies that is keyed by the node object or by its id attribute: node hash is the id
+    and node equality is content + origin, so two different node objects of one tree that share an id (a node and the successor
+    ASTNode.replace gave its id to) get one entry -- one of the two positions receives the copy of the other node."""
+    dicts = {st.targets[0].id for st in walk_body(fn.body) if isinstance(st, ast.Assign) and isinstance(st.targets[0], ast.Name)
+             and (isinstance(st.value, ast.Dict) and not st.value.keys or isinstance(st.value, ast.Call) and dotted(st.value.func) in ("dict", "WeakKeyDictionary", "weakref.WeakKeyDictionary") and not st.value.args)}
+    dicts |= {st.target.id for st in walk_body(fn.body) if isinstance(st, ast.AnnAssign) and isinstance(st.target, ast.Name) and isinstance(st.value, ast.Dict) and not st.value.keys}
+    nodeish: set[str] = {"self"}
+    groups: set[str] = set()
+    changed = True
+    while changed:
+        changed = False
+        for n in walk_body(fn.body):
+            if not isinstance(n, (ast.For, ast.comprehension)):
+                continue
+            it, tg = n.iter, n.target
+            new: set[str] = set()
+            if isinstance(it, ast.Call) and isinstance(it.func, ast.Attribute):
+                a = it.func.attr
+                if a == "iter_child_fields" and isinstance(tg, ast.Tuple) and tg.elts and isinstance(tg.elts[0], ast.Name):
+                    if tg.elts[0].id not in groups:
+                        groups.add(tg.elts[0].id)
+                        new.add(tg.elts[0].id)
+                elif a in ("get_child_nodes",) and isinstance(tg, ast.Name):
+                    new.add(tg.id)
+                elif a == "get_child_nodes_with_field" and isinstance(tg, ast.Tuple) and tg.elts and isinstance(tg.elts[0], ast.Name):
+                    new.add(tg.elts[0].id)
+            elif isinstance(it, ast.Name) and it.id in groups and isinstance(tg, ast.Name):
+                new.add(tg.id)
+            elif isinstance(it, ast.Attribute) and it.attr == "children" and isinstance(tg, ast.Name):
+                new.add(tg.id)
+            if new - nodeish:
+                nodeish |= new
+                changed = True
+
+    def is_node(e: ast.expr) -> bool:
+        if isinstance(e, ast.Name):
+            return e.id in nodeish
+        if isinstance(e, ast.Attribute) and e.attr == "node":  # NodeTraversalInfo.node
+            return True
+        return False
+
+    for n in walk_body(fn.body):
+        if isinstance(n, ast.Subscript) and isinstance(n.value, ast.Name) and n.value.id in dicts:
+            k = n.slice
+            if is_node(k):
+                return f"the mapping {n.value.id} is keyed by the node object {norm(k)} (hash = id, equality = content and origin): two different node objects of the tree that share an id collapse into one entry"
+            if isinstance(k, ast.Attribute) and k.attr == "id" and is_node(k.value):
+                return f"the mapping {n.value.id} is keyed by {norm(k)}: two different node objects of the tree that share an id collapse into one entry"
+    return None
+
+
 def r_dup_sanitize(ck: Checker) -> None:
     f = ck.repo.func(NODE, "ASTNode.duplicate")
     fn = f.node
     loops = [s for s in fn.body if isinstance(s, ast.For)]
+    keyed = _node_keyed_mapping(fn)
+    if keyed:
+        ck.violation("R-DUP-SANITIZE", f, fn, "duplicate pairs every original node object with its own copy (by position or object identity)",
+                     construct=f"duplicate: {keyed}")
+        return
     if len(loops) != 1:
         raise Unsupported("duplicate is not a single loop over the child fields", fn)
     lp = loops[0]
